@@ -1505,7 +1505,9 @@ class _DNF:
     @classmethod
     def extract_pq_filters(cls, pq_expr: ReadParquet, predicate_expr: Expr) -> _DNF:
         _filters = None
-        if isinstance(predicate_expr, (LE, GE, LT, GT, EQ, NE)):
+        # ``!=`` is not converted: pandas keeps rows with missing values for
+        # ``col != value`` while the reader drops them (null != value is null)
+        if isinstance(predicate_expr, (LE, GE, LT, GT, EQ)):
             if (
                 not isinstance(predicate_expr.right, Expr)
                 and isinstance(predicate_expr.left, Projection)
